@@ -28,6 +28,9 @@ func vs_same[T any](a, b []T) bool { return len(a) == len(b) && (len(a) == 0 || 
 func vs_called(callee string) bool { return false }
 func vs_callResult[T any](callee string, i int) T { var z T; return z }
 func vs_callArg[T any](callee string, i int) T { var z T; return z }
+// vs_eq(a, b): a and b are the same value (same scalars, same references) - for struct types that
+// Go's == does not accept.
+func vs_eq[T any](a, b T) bool { return true }
 // vs_has(m, k): k is a key of m.
 func vs_has[K comparable, V any](m map[K]V, k K) bool { _, ok := m[k]; return ok }
 `
